@@ -300,6 +300,14 @@ func (x *Run) execLookup(fr *Frame, st *State, ins *ssa.Lookup, outs *[]Outcome)
 		k = x.coerce(st, k, mt.Key())
 		x.checkValGuard(fr, st, m, false, ins)
 		v, has := x.mapGet(st, m, k.T)
+		// a map / slice / channel stored in a guarded map is protected by the
+		// same lock (nested tables); objects pointed to have their own
+		if m.Guard != "" && v.Ty != nil {
+			switch types.Unalias(v.Ty).Underlying().(type) {
+			case *types.Map, *types.Slice:
+				v.Guard = m.Guard
+			}
+		}
 		if ins.CommaOk {
 			fr.env[ins] = Val{S: "Tuple", Ty: ins.Type(), Tup: []Val{v, {T: has, S: SBool, Ty: types.Typ[types.Bool]}}}
 		} else {
